@@ -62,8 +62,8 @@ def given_by_caller(b, local):
 
 def check_consume(ctx, fx, cfg, floor, RULE="R18.1"):
     sites = sorted({f["def"] for f, bi, t in graph.all_calls(fx, nfa.trait_method("actor::spawner::Spawner", "spawn_actor"))})
-    ctx.floor(RULE, "spawn entry points (%s)" % cfg, len(sites), floor)
     n_fn = 0
+    n_entry = [len(sites)]
     for f in fx.d["fns"]:
         if "post" in f:
             b = ctx.body(fx, f, "post")
@@ -95,6 +95,10 @@ def check_consume(ctx, fx, cfg, floor, RULE="R18.1"):
                     elif x["k"] == "ret":
                         how.add("ret")
                 ctx.require(bool(how), RULE, "consumed:%s@%s" % (s, cfg), "the handle returned by spawn_actor is neither detached nor handed to the caller", fn=s, site=t["l"], detail=sorted(how))
+                if how and how <= {"ret"} | {h for h in how if h.startswith("returned-in-")}:
+                    # a shared helper that hands the handle to its caller (`env.launch::<S>(actor)`): its callers are the
+                    # entry points (what they do with the handle is judged by the drop rule above, which looks at every function)
+                    n_entry[0] += len({g_["def"] for g_, _b, _t in graph.all_calls(fx, lambda x, _n=s: (x.get("resolved") or x.get("callee")) == _n or x.get("callee") == _n)})
                 # what is spawned is the loop created from the actor in this function
                 ph = loops.pair_helpers(fx)
 
@@ -114,6 +118,7 @@ def check_consume(ctx, fx, cfg, floor, RULE="R18.1"):
                     return True
                 ok = is_loop(b, f, t["args"][0])
                 ctx.require(ok, RULE, "spawns-its-loop:%s@%s" % (s, cfg), "what is spawned is not the event loop created here", fn=s, site=t["l"])
+    ctx.floor(RULE, "spawn entry points (%s)" % cfg, n_entry[0], floor)
 
 
 def check_runtime(ctx, fx, cfg):
